@@ -13,6 +13,8 @@ import (
 	"time"
 
 	"github.com/klev-dev/klevdb"
+
+	"verifharness/ref"
 )
 
 // crash-workload: the child process that crashmon records under strace. It runs a symbolic
@@ -211,8 +213,30 @@ func crashWorkload(args []string) int {
 				}
 			}
 			path := filepath.Join(dir, head)
-			if st.Target == "index" {
+			if st.Target == "index" || st.Target == "both" {
 				path = strings.TrimSuffix(path, ".log") + ".index"
+			}
+			if st.Target == "both" {
+				// the log loses exactly its last record, the index st.N bytes (less than an item): the index
+				// then holds the items of the records that are left plus a fragment
+				logPath := filepath.Join(dir, head)
+				data, rerr := os.ReadFile(logPath)
+				var base int64
+				fmt.Sscanf(head, "%020d", &base)
+				_, spans, _, _, _ := ref.ParseLog(data, base)
+				ifi, ierr := os.Stat(path)
+				switch {
+				case head == "" || rerr != nil || ierr != nil || len(spans) < 2:
+					em.Err = "nothing to tear"
+				default:
+					if err := os.Truncate(logPath, int64(spans[len(spans)-1].Start)); err != nil {
+						em.Err = err.Error()
+					} else if err := os.Truncate(strings.TrimSuffix(logPath, ".log")+".index", ifi.Size()-int64(st.N)); err != nil {
+						em.Err = err.Error()
+					}
+				}
+				mark("E", em)
+				continue
 			}
 			if fi, err := os.Stat(path); head == "" || err != nil || fi.Size()-int64(st.N) < 8 {
 				em.Err = "nothing to tear"
